@@ -27,6 +27,7 @@ type Case struct {
 	ExplicitTx bool        `json:"explicit_tx"`
 	HookSets   bool        `json:"hook_sets"`   // before-hooks of root users set Age (directly on create, via SetColumn on update)
 	HookWrites bool        `json:"hook_writes"` // BeforeSave/BeforeDelete of root users write a marker row through their tx
+	ErrClass   string      `json:"err_class,omitempty"` // the failing hook's error wraps this well-known error (simdrv.ClassError)
 	MaxSites   int         `json:"max_sites"`
 	Pick       int64       `json:"pick_seed"`
 	Only       []ops.Fault `json:"only,omitempty"`
@@ -75,6 +76,9 @@ func (Prop) Gen(r *core.Rand, tier string) interface{} {
 	if tier != "thorough" {
 		c.MaxSites = 25
 	}
+	if r.Chance(40) {
+		c.ErrClass = r.Pick(simdrv.Classes)
+	}
 	return c
 }
 
@@ -108,6 +112,7 @@ func (Prop) Shrink(ci interface{}) []interface{} {
 		func(v *Case) bool { x := v.ExplicitTx; v.ExplicitTx = false; return x },
 		func(v *Case) bool { x := v.HookSets; v.HookSets = false; return x },
 		func(v *Case) bool { x := v.HookWrites; v.HookWrites = false; return x },
+		func(v *Case) bool { x := v.ErrClass != ""; v.ErrClass = ""; return x },
 	} {
 		v := *c
 		if f(&v) {
@@ -541,6 +546,7 @@ func (p Prop) Run(ci interface{}, focus *core.Violation) *core.Outcome {
 		id := 0
 		faults = ops.HookSites(sr.Hooks, &id)
 		ops.SortFaults(faults)
+		ops.ApplyClass(faults, c.ErrClass)
 		out.Count("sites_total", int64(len(faults)))
 		if c.MaxSites > 0 && len(faults) > c.MaxSites {
 			r := core.NewRand(c.Pick)
